@@ -17,6 +17,8 @@ Not decided: degrees 4..12 beyond what loop uniformity implies, floating-point a
 Added after the seeding rounds (DESIGN.md 6.6-6.8):
  RELOAD / TABLE.select / TABLE.date / SYNTHESIS.enu / CTOR-ROUTE / ELEMENTS  the model file is selected on the unrounded decimal year, which is float(date) or
             year + yday/365; the ENU components are (Y, X, -Z) of the NED synthesis; constructor and method agree.
+Added after seeding rounds 5 and 6 and refactoring round 4 (DESIGN.md 6.10-6.12):
+ TABLE.header on a synthetic coefficient file; SYNTHESIS.k table fallback.
 """
 import ast
 import os
